@@ -285,7 +285,7 @@ class XWorld(World):
         self.cls_of = {
             **{k: v for k, v in self.classes.items()}, **mine,
             "deque": collections.deque, "USeq": self.USeq, "UColl": self.UColl, "UMap": self.UMap, "UIter": self.UIter,
-            "gen": types.GeneratorType, "set": set, "frozenset": frozenset, "dict_keys": type({}.keys()),
+            "gen": types.GeneratorType, "USizedIter": sem._SizedIter, "set": set, "frozenset": frozenset, "dict_keys": type({}.keys()),
             "dict_values": type({}.values()), "dict_items": type({}.items()), "odict_keys": type(od.keys()),
             "odict_values": type(od.values()), "odict_items": type(od.items()), "defaultdict": collections.defaultdict,
             "OrderedDict": collections.OrderedDict, "Counter": collections.Counter, "ChainMap": collections.ChainMap,
@@ -310,13 +310,15 @@ class XWorld(World):
                 return object()
             if c in self.atoms:
                 return self.atoms[c]
+            if c == "float" and o["v"] == 0:
+                return 0.0
             return self.atom(o)
         if k == "type":
             return self.classes[o["cls"]]
         c = o["cls"]
         if k == "iter":
             items = [self.xobj(i) for i in o["items"]]
-            return (i for i in items) if c == "gen" else self.UIter(items)
+            return (i for i in items) if c == "gen" else sem._SizedIter(items) if c == "USizedIter" else self.UIter(items)
         if k == "map":
             if c in self.MUTABLE:
                 d = {"dict": dict, "OrderedDict": collections.OrderedDict,
@@ -507,6 +509,39 @@ class _Watchdog(Exception):
     pass
 
 
+class _Runaway(BaseException):
+    """infer_hint nested deeper than any object of the universe is: unbounded recursion."""
+
+
+# Recursion watchdog.  The item inferers re-import ``beartype.bite._infermain.infer_hint`` on every call, so replacing
+# that module attribute counts the nesting of the recursive calls (the public ``beartype.bite.infer_hint`` stays the
+# original function).  Without it the outcome of an unbounded recursion depends on WHERE the stack overflows:
+# RecursionError if it propagates, a garbage hint if it is raised inside one of beartype's ``except Exception`` blocks.
+MAX_NEST = 100
+_nest = [0]
+
+
+def _install_recursion_watchdog():
+    import beartype.bite._infermain as im
+    if getattr(im.infer_hint, "_c20_guard", False):
+        return
+    orig = im.infer_hint
+
+    def infer_hint(*a, **kw):
+        _nest[0] += 1
+        try:
+            if _nest[0] > MAX_NEST:
+                raise _Runaway()
+            return orig(*a, **kw)
+        finally:
+            _nest[0] -= 1
+    infer_hint._c20_guard = True
+    im.infer_hint = infer_hint
+
+
+_install_recursion_watchdog()
+
+
 def _alarm(signum, frame):
     raise _Watchdog()
 
@@ -527,6 +562,9 @@ def real_infer(x, conf, r, lcm, big=0):
             return h, None, [w.category.__name__ for w in ws]
         except _Watchdog:
             raise
+        except _Runaway:
+            return None, (f"RecursionError: unbounded recursion (infer_hint nested more than {MAX_NEST} levels deep; the "
+                          f"unguarded call ends in RecursionError)"), [w.category.__name__ for w in ws]
         except BaseException as ex:      # noqa
             return None, f"{type(ex).__name__}: {str(ex)[:120]}", [w.category.__name__ for w in ws]
 
@@ -710,6 +748,8 @@ def _short(o):
     k = o["k"]
     if k == "back":
         return f"<back {o['v']}>"
+    if k == "atom" and o["cls"] == "float" and o["v"] == 0:
+        return "0.0"
     if k in ("atom", "type"):
         return sem.short_obj(o) if o["cls"] in ("int", "bool", "float", "complex", "str", "NoneType", "A", "B") or k == "type" \
             else f"<{o['cls']}>"
@@ -893,7 +933,19 @@ def zoo(w):
     async def co():
         pass
 
+    def seen_str_then_userstring():
+        from beartype.bite import infer_hint
+        infer_hint("q")                          # memoises is_hint_pep("q") - a UserString equal to it hits that entry
+        return collections.UserString("q")
+
     return [
+        # string-like sequences: every item is a FRESH one-character object of the same class (no id() ever repeats).
+        # FIRST in the zoo and spelled with characters no other case uses: beartype memoises is_hint_pep() on ==/hash
+        ("UserString", lambda: collections.UserString("\u00b5\u00df")),
+        ("one-character UserString", lambda: collections.UserString("\u00b5")),
+        ("empty UserString", lambda: collections.UserString("")),
+        ("list of UserString", lambda: [collections.UserString("\u00df\u00b5")]),
+        ("UserString equal to a str inferred before", seen_str_then_userstring),
         ("namedtuple", lambda: P(1, "a")), ("list of namedtuple", lambda: [P(1, "a")]),
         ("struct_time", lambda: time.gmtime(0)), ("stat_result", lambda: os.stat("/")),
         ("str subclass", lambda: MyStr("ab")), ("empty str subclass", lambda: MyStr("")),
@@ -920,11 +972,23 @@ def zoo(w):
         ("ChainMap of two dicts", lambda: collections.ChainMap({1: "a"}, {"b": 2})),
         ("defaultdict of lists", lambda: collections.defaultdict(list, a=[1], b=["c"])),
         ("object()", lambda: object()), ("list of object()", lambda: [object(), object()]),
+        # ==-equal items of different types beyond the model's length bound
+        ("12-tuple of 1 and 1.0", lambda: tuple([1, 1.0] * 6)), ("12-tuple of True and 1", lambda: tuple([True, 1] * 6)),
+        ("list of 0.0, 0 and 'x'", lambda: [0.0, 0, "x"]), ("long list of 1.0 and 1", lambda: [1.0, 1] * 20),
+        ("deque of False, 0 and 0.0", lambda: collections.deque([False, 0, 0.0])),
+        ("UserList of True, 1 and 1.0", lambda: collections.UserList([True, 1, 1.0])),
+        ("Counter of lists", lambda: collections.Counter({"a": [1, 2]})),
+        ("Counter of int and str", lambda: collections.Counter({"a": 1, "b": "x"})),
     ]
 
 
+# zoo objects that are further instances of one root-cause class share its key
+ZOO_LABEL = {"one-character UserString": "UserString", "list of UserString": "UserString", "empty UserString": "UserString"}
+ZOO_LCM = 12          # residues 0..11: every index of the 12-item containers above is sampled
+
+
 def run_zoo(rep, w, confs, agg):
-    lcm = 6
+    lcm = ZOO_LCM
     full = (1 << lcm) - 1
     n = 0
     for name, mk in zoo(w):
@@ -934,7 +998,8 @@ def run_zoo(rep, w, confs, agg):
             x = mk()
             rt = round_trip(x, lcm, confs)
         except _Watchdog:
-            agg_add(agg, {"obj": name, "zoo": True, "hang": True}, False, f"zoo object {name}: no termination", {"zoo": name}, 0)
+            agg_add(agg, {"obj": ZOO_LABEL.get(name, name), "zoo": True, "hang": True}, False,
+                    f"zoo object {name}: no termination", {"zoo": name, "lcm": lcm}, len(name))
             continue
         finally:
             signal.alarm(0)
@@ -943,15 +1008,15 @@ def run_zoo(rep, w, confs, agg):
         rep.count(3 + 2 * lcm + lcm * lcm)
         if on_fails(rt, full):
             on = rt["On"]
-            key = {"obj": name, "zoo": True}
+            key = {"obj": ZOO_LABEL.get(name, name), "zoo": True}
             if on["exc"] or rt["default"]["exc"]:
                 key["exc"] = (on["exc"] or rt["default"]["exc"]).split(":")[0]
             elif on["chk_exc"]:
                 key["check_exc"] = on["chk_exc"].split(":")[0]
-            what = (f"zoo object {name}: infer_hint -> {on['hint']!r}, accepted under residues mask {on['mask']:06b}"
+            what = (f"zoo object {name}: infer_hint -> {on['hint']!r}, accepted under residues mask {on['mask']:0{lcm}b}"
                     + (f", checker raises {on['chk_exc']}" if on["chk_exc"] else "")) if on["exc"] is None else \
                 f"zoo object {name}: infer_hint raises {on['exc']}"
-            agg_add(agg, key, on["exc"] is None and on["mask"] not in (0, full), what, {"zoo": name}, 0)
+            agg_add(agg, key, on["exc"] is None and on["mask"] not in (0, full), what, {"zoo": name, "lcm": lcm}, len(name))
     rep.cov["zoo_objects"] = n
 
 
@@ -974,7 +1039,7 @@ def report(rep, agg, lcm):
         if a["dd"]:
             key["draw_dependent"] = True
             what, case = a["dd_what"], a["dd_case"]
-        rep.violation(key, f"{what}  [{a['n']} case(s) of this root-cause class]", {**case, "lcm": lcm})
+        rep.violation(key, f"{what}  [{a['n']} case(s) of this root-cause class]", {"lcm": lcm, **case})
 
 
 # ===================================================================== R1
